@@ -44,7 +44,9 @@ def jose_cls(kty: str):
 def provision(key: RKey, how: str, params: dict | None = None):
     """bring material into joserfc for the first time: 'jwk' (reference-made strict JWK), 'pem', 'der', 'native'"""
     from joserfc.jwk import JWKRegistry
+    import copy
     cls = jose_cls(key.kty)
+    params = copy.deepcopy(params)      # every key gets dicts of its own: what one history does to them stays in that history
     if key.kty == "oct":
         if how == "jwk":
             d = rk.to_jwk(key, True)
